@@ -65,8 +65,9 @@ def signal(rng, n, p, flat=False):
     return X
 
 
-def variants_stream(ctx, name, make, count, p_choices=(1, 2, 3), n_range=(36, 70), integer_ok=True, flat_make=None, score_rtol=1e-9):
-    """make() -> fresh detector with a built-in scorer.  flat_make() -> a detector configured so that nothing is detected on noise."""
+def variants_stream(ctx, name, make, count, p_choices=(1, 2, 3), n_range=(36, 70), integer_ok=True, flat_make=None, score_rtol=1e-9, nested=None):
+    """make() -> fresh detector with a built-in scorer.  flat_make() -> a detector configured so that nothing is detected on noise.
+    nested = (key, value): a NESTED hyper-parameter of the detector's scorer (e.g. "change_score__param", 0.0) that set_params must bring into effect."""
     rng = ctx.rng
     for it in range(count):
         p = rng.choice(list(p_choices))
@@ -139,6 +140,22 @@ def variants_stream(ctx, name, make, count, p_choices=(1, 2, 3), n_range=(36, 70
                 fail("update_predict", f"fit(first half).update_predict(all rows) gives {str(y_up)[:140]}, a detector fitted on all rows predicts {str(ref['predict'])[:140]}")
         except Exception as ex:
             fail("composite-entry", f"raised {type(ex).__name__}: {str(ex)[:120]}")
+        # ---- a nested hyper-parameter set through the detector takes effect: the detector behaves like a fresh one built from what get_params reports ----
+        if nested is not None:
+            try:
+                key, val = nested
+                d = make()
+                d.set_params(**{key: val})
+                got = _outputs(d.fit(Xn.copy()), Xn.copy())
+                fresh = type(d)(**d.get_params(deep=False))
+                want = _outputs(fresh.fit(Xn.copy()), Xn.copy())
+                base_ = _outputs(make().fit(Xn.copy()), Xn.copy())
+                ctx.count("nested_param_changes_output", str(want["predict"] != base_["predict"] or not _close(want["scores"], base_["scores"], score_rtol)))
+                if got["predict"] != want["predict"] or got["labels"] != want["labels"] or not _close(got["scores"], want["scores"], score_rtol):
+                    fail("nested-set_params", f"after set_params({key}={val!r}) the detector gives {str(got['predict'])[:120]}, a fresh detector built from get_params() gives "
+                                              f"{str(want['predict'])[:120]} (get_params reports {key} = {d.get_params().get(key)!r})")
+            except Exception as ex:
+                fail("nested-set_params", f"raised {type(ex).__name__}: {str(ex)[:120]}")
         # ---- results handed out earlier stay what they were ----
         try:
             d = make().fit(Xn.copy())
